@@ -91,8 +91,9 @@ def validation(P, M, S):
         exp = ", ".join(v["expected"]) or "(C09, not claimed)"
         out.append(f"| {name} | {exp} | {what} | {', '.join(v['caught']) or 'nothing (C09 is not claimed)'} |")
     out.append("")
-    n_s = len([k for k, v in M.items() if v["kind"] not in ("benign", "limit") and v["expected"]])
-    n_own = len([k for k, v in M.items() if v["kind"] not in ("benign", "limit") and v["expected"] and v["expected"][0] in v["caught"]])
+    claimed_ids = {pid for pid in P if pid != "C09"}
+    n_s = len([k for k, v in M.items() if v["kind"] not in ("benign", "limit") and v["expected"] and v["expected"][0] in claimed_ids])
+    n_own = len([k for k, v in M.items() if v["kind"] not in ("benign", "limit") and v["expected"] and v["expected"][0] in claimed_ids and v["expected"][0] in v["caught"]])
     out.append(f"Of the {n_s} breaking changes aimed at a claimed property, {n_own} are reported by the check of that very property "
                "(the remaining ones, if any, by a sibling); the changes aimed at C09 are reported only where they also break a claimed clause.\n")
     return "\n".join(out) + "\n"
